@@ -39,8 +39,9 @@ class table:
     symbol and a SYMBOLIC kind, '|' = group separator."""
     is_factory = True
 
-    def __init__(self, shape):
+    def __init__(self, shape, arity=None):
         self.shape = shape
+        self.arity = arity
 
     def __call__(self, name, path):
         ops, i = [], 0
@@ -93,4 +94,98 @@ def contracts():
             name='factory._build_operator_table/' + shape.replace('|', 'I'),
             params=dict(self=table(shape), name_generator=names()),
             requires=req, ensures=ens, serves=('C02',), native=False))
+    return cs
+
+
+# ---------------------------------------------------------------- insert ----
+BIN = '(%s == "BINARY_LEFT_ASSOCIATIVE" or %s == "BINARY_RIGHT_ASSOCIATIVE")'
+UNA = '(%s == "PREFIX_UNARY" or %s == "SUFFIX_UNARY")'
+
+
+def expected_insert(shape, arity, anchor, anchor_binary, create_group):
+    """The table after insert_operator, from the STATEMENT of what the
+    helper is for (docs: 'insert an operator before or after some other
+    existing operator to get the desired precedence'; property C02: 'group
+    numbering in insert_operator'):
+      * anchor None: the new operator becomes the tightest - the first
+        member of the first group, or (create_group) a new first group;
+      * anchor given: the first record with that symbol and arity decides
+        the group; the new operator joins the END of that group, or
+        (create_group) forms a new group of its own immediately AFTER
+        (= looser than) it, tighter than the next one;
+      * every other record and separator keeps its place and order.
+    Returns a list of 'N' / record indices / '|', or None for ValueError."""
+    items, i = [], 0
+    for ch in shape:
+        if ch == '|':
+            items.append('|')
+        else:
+            items.append(i)
+            i += 1
+    if anchor is None:
+        return (['N', '|'] if create_group else ['N']) + items
+    pos = None
+    for j, it in enumerate(items):
+        if it != '|' and it == anchor and (arity[it] == 'b') == anchor_binary:
+            pos = j
+            break
+    if pos is None:
+        return None
+    end = pos
+    while end < len(items) and items[end] != '|':
+        end += 1            # end of the anchor's group
+    if create_group:
+        return items[:end] + ['|', 'N'] + items[end:]
+    return items[:end] + ['N'] + items[end:]
+
+
+def insert_contracts():
+    cs = []
+    family = [('o', 'b'), ('oo', 'bu'), ('o|o', 'bb'), ('o|o', 'ub'),
+              ('oo|o', 'bbb'), ('o|oo|o', 'bubb'), ('o|o|o', 'bub')]
+    for shape, arity in family:
+        n = len(arity)
+        for anchor in [None] + list(range(n)):
+            for anchor_binary in ((True,) if anchor is None
+                                  else (True, False)):
+                for cg in (False, True):
+                    exp = expected_insert(shape, arity, anchor,
+                                          anchor_binary, cg)
+                    req = [(BIN if a == 'b' else UNA) % (('K%d' % i,) * 2)
+                           for i, a in enumerate(arity)]
+                    nm = 'factory.insert_operator/%s:%s/%s%s/%s' % (
+                        shape.replace('|', 'I'), arity,
+                        'head' if anchor is None else 's%d' % anchor,
+                        '' if anchor is None else
+                        ('b' if anchor_binary else 'u'),
+                        'group' if cg else 'join')
+                    ens, raises = [], {}
+                    if exp is None:
+                        raises = {'ValueError': 'True'}
+                        ens = ['False']
+                    else:
+                        ens.append('len(self.operators) == %d' % len(exp))
+                        for j, it in enumerate(exp):
+                            e = 'self.operators[%d]' % j
+                            if it == '|':
+                                ens.append('len(%s) == 0' % e)
+                            elif it == 'N':
+                                ens.append(
+                                    '%s[0] == "N" and %s[1] == '
+                                    'new_operator_type and %s[2] is None'
+                                    % (e, e, e))
+                            else:
+                                ens.append('%s[0] == "s%d" and %s[1] == K%d'
+                                           % (e, it, e, it))
+                    cs.append(Contract(
+                        F + 'YaqlFactory.insert_operator', name=nm,
+                        params=dict(
+                            self=table(shape, arity),
+                            existing_operator=(None if anchor is None
+                                               else 's%d' % anchor),
+                            existing_operator_binary=anchor_binary,
+                            new_operator='N', new_operator_type=TStr,
+                            create_group=cg, new_operator_alias=None),
+                        requires=req, ensures=ens, raises=raises,
+                        serves=('C02',), native=False))
     return cs
